@@ -320,6 +320,24 @@ func c12R1R3(p *core.Program, r *core.Report, np *core.Func) {
 						r.Bad("R1", site.F, construct, site.Call.Pos(), "every visited comment group (including doc comments) is entered in the trailing index")
 						continue
 					}
+					// the group is the node the walk is at - a *ast.CommentGroup that ast.Inspect reaches is attached to a node as its
+					// Doc or Comment; the file's own list (`File.Comments`) also holds the free-floating groups (`type T struct { // x`),
+					// which are nobody's documentation
+					fromList := false
+					ast.Inspect(site.F.Root().Body, func(m ast.Node) bool {
+						if rs, isRange := m.(*ast.RangeStmt); isRange {
+							for _, kv := range []ast.Expr{rs.Key, rs.Value} {
+								if id, isID := kv.(*ast.Ident); isID && finfo.Defs[id] == types.Object(v) {
+									fromList = true
+								}
+							}
+						}
+						return true
+					})
+					if fromList {
+						r.Bad("R1", site.F, construct, site.Call.Pos(), "the group entered as leading comes from a list that is ranged over (the file's Comments), not from the walk: free-floating comments - attached to no node, such as the one after an opening brace - are entered too and become the documentation of the declaration on the next line")
+						continue
+					}
 					ok, why := genericVisitFiltered(p, site.F, site.Call, v)
 					r.Check(ok, "R1", site.F, construct, site.Call.Pos(), "generic visit is filtered by a set holding every node's .Comment group",
 						"ast.Inspect's generic *ast.CommentGroup visit also reaches every node's trailing .Comment group; entering it unfiltered in the leading index makes `A int // x` the doc of the next declaration"+why)
